@@ -117,13 +117,39 @@ type scenario struct {
 	init     []string
 	children map[string][]string
 	// cache
-	prog [][]string
+	prog    [][]string
+	nilKeys map[string]bool // keys whose f returns nil (ops n<key>)
+}
+
+// the work item that stands for the Go value nil (see harness/shimcmd/par)
+const nilItem = "999"
+
+// expandItems turns "3,7..9" into [3 7 8 9].
+func expandItems(list string) []string {
+	if list == "-" || list == "" {
+		return nil
+	}
+	var out []string
+	for _, el := range strings.Split(list, ",") {
+		if ab := strings.SplitN(el, "..", 2); len(ab) == 2 {
+			a, err1 := strconv.Atoi(ab[0])
+			b, err2 := strconv.Atoi(ab[1])
+			if err1 == nil && err2 == nil {
+				for x := a; x <= b; x++ {
+					out = append(out, strconv.Itoa(x))
+				}
+				continue
+			}
+		}
+		out = append(out, el)
+	}
+	return out
 }
 
 func workScenario(label string, n int, init string, graph string) scenario {
 	sc := scenario{kind: "work", label: label, n: n, children: map[string][]string{}}
 	if init != "-" && init != "" {
-		sc.init = strings.Split(init, ",")
+		sc.init = expandItems(init)
 	} else {
 		init = "-"
 	}
@@ -131,7 +157,10 @@ func workScenario(label string, n int, init string, graph string) scenario {
 		for _, part := range strings.Split(graph, ";") {
 			kv := strings.SplitN(part, ">", 2)
 			if len(kv) == 2 && kv[1] != "" {
-				sc.children[kv[0]] = strings.Split(kv[1], ",")
+				cs := expandItems(kv[1])
+				for _, x := range expandItems(kv[0]) {
+					sc.children[x] = cs
+				}
 			}
 		}
 	} else {
@@ -141,18 +170,59 @@ func workScenario(label string, n int, init string, graph string) scenario {
 	return sc
 }
 
+func (sc scenario) hasNilItem() bool {
+	if _, ok := sc.children[nilItem]; ok {
+		return true
+	}
+	for _, x := range sc.init {
+		if x == nilItem {
+			return true
+		}
+	}
+	for _, cs := range sc.children {
+		for _, c := range cs {
+			if c == nilItem {
+				return true
+			}
+		}
+	}
+	return false
+}
+
 func cacheScenario(label, prog string) scenario {
-	sc := scenario{kind: "cache", label: label, text: "cache " + prog}
+	sc := scenario{kind: "cache", label: label, text: "cache " + prog, nilKeys: map[string]bool{}}
 	for _, g := range strings.Split(prog, "|") {
 		var ops []string
 		for _, op := range strings.Split(g, ";") {
 			if op != "" && op != "-" {
 				ops = append(ops, op)
+				if op[0] == 'n' {
+					sc.nilKeys[op[1:]] = true
+				}
 			}
 		}
 		sc.prog = append(sc.prog, ops)
 	}
 	return sc
+}
+
+// consistent: every op is d/n/g<number>, and a key is computed either always by the nil-returning f
+// (`n`) or always by the value-returning one (`d`) — the model knows one f per key.
+func (sc scenario) consistent() bool {
+	for _, g := range sc.prog {
+		for _, op := range g {
+			if len(op) < 2 || !strings.ContainsRune("dng", rune(op[0])) {
+				return false
+			}
+			if _, err := strconv.Atoi(op[1:]); err != nil {
+				return false
+			}
+			if op[0] == 'd' && sc.nilKeys[op[1:]] {
+				return false
+			}
+		}
+	}
+	return true
 }
 
 func parseScenario(text string) (scenario, string, bool) {
@@ -173,7 +243,8 @@ func parseScenario(text string) (scenario, string, bool) {
 		if len(f) >= 3 {
 			sched = f[2]
 		}
-		return cacheScenario("replay", f[1]), sched, true
+		sc := cacheScenario("replay", f[1])
+		return sc, sched, sc.consistent()
 	}
 	return scenario{}, "", false
 }
@@ -192,6 +263,12 @@ var smallGraphs = [][3]string{
 	{"join", "0,1", "0>2;1>2;2>3"},
 	{"chain2", "0", "0>1;1>2"},
 	{"fan2", "0", "0>1,2"},
+	{"two-fan", "0,1", "0>2,3"},
+	// the item nil (written 999): alone, among others, added from inside f, with children, added twice
+	{"nil-single", "999", "-"},
+	{"nil-among", "0,999,1", "-"},
+	{"nil-child", "0", "0>999,1;999>2"},
+	{"nil-dup", "999,999", "999>999,0"},
 }
 
 var smallCaches = [][2]string{
@@ -207,6 +284,12 @@ var smallCaches = [][2]string{
 	{"three-two", "d0|d1;d0|g0;g1"},
 	{"four", "d0|d0|g0|d0"},
 	{"four-two", "d0|d1|g0;d1|g1;d0"},
+	// nil keys (`n`: the f passed to Do returns the untyped nil)
+	{"nil-do-do", "n0|n0"},
+	{"nil-seq-get", "n0;n0;g0|g0"},
+	{"nil-doget-doget", "n0;g0|g0;n0"},
+	{"nil-do-do-do", "n0|n0;n0|n0"},
+	{"nil-and-value", "n0;d1;g0|d1;n0;g1"},
 }
 
 func randWork(r *rand.Rand, maxN, maxItems int) scenario {
@@ -245,25 +328,65 @@ func randWork(r *rand.Rand, maxN, maxItems int) scenario {
 	if len(parts) > 0 {
 		gr = strings.Join(parts, ";")
 	}
-	return workScenario("random", n, in, gr)
+	label := "random"
+	if r.Intn(4) == 0 {
+		// one of the items is the Go value nil
+		x := strconv.Itoa(r.Intn(items))
+		ren := func(list string, sep string) string {
+			f := strings.Split(list, sep)
+			for i := range f {
+				if f[i] == x {
+					f[i] = nilItem
+				}
+			}
+			return strings.Join(f, sep)
+		}
+		if in != "-" {
+			in = ren(in, ",")
+		}
+		if gr != "-" {
+			ps := strings.Split(gr, ";")
+			for i, p := range ps {
+				kv := strings.SplitN(p, ">", 2)
+				ps[i] = ren(kv[0], ",") + ">" + ren(kv[1], ",")
+			}
+			gr = strings.Join(ps, ";")
+		}
+	}
+	sc := workScenario(label, n, in, gr)
+	if sc.hasNilItem() {
+		sc.label = "random+nil"
+	}
+	return sc
 }
 
 func randCache(r *rand.Rand) scenario {
 	g := 2 + r.Intn(3)
 	keys := 1 + r.Intn(2)
+	// each key's f returns nil with probability 1/3
+	doOp := make([]string, keys)
+	label := "random"
+	for k := range doOp {
+		doOp[k] = "d"
+		if r.Intn(3) == 0 {
+			doOp[k] = "n"
+			label = "random+nil"
+		}
+	}
 	var gs []string
 	for i := 0; i < g; i++ {
 		var ops []string
 		for j, k := 0, 1+r.Intn(3); j < k; j++ {
-			op := "d"
+			key := r.Intn(keys)
+			op := doOp[key]
 			if r.Intn(3) == 0 {
 				op = "g"
 			}
-			ops = append(ops, op+strconv.Itoa(r.Intn(keys)))
+			ops = append(ops, op+strconv.Itoa(key))
 		}
 		gs = append(gs, strings.Join(ops, ";"))
 	}
-	return cacheScenario("random", strings.Join(gs, "|"))
+	return cacheScenario(label, strings.Join(gs, "|"))
 }
 
 // ---------------------------------------------------------------- trace parsing
@@ -367,92 +490,93 @@ func closure(sc scenario) map[string]bool {
 	return seen
 }
 
-func analyseWork(sc scenario, evs []event, end string) *analysis {
-	a := &analysis{end: end}
-	var out []string
-	// ---- oracle state (from the trace and the scenario only)
+// sortedKeys returns the keys of a string set in a fixed order (numbers numerically).
+func sortedKeys(m map[string]bool) []string {
+	out := make([]string, 0, len(m))
+	for k := range m {
+		out = append(out, k)
+	}
+	sort.Slice(out, func(i, j int) bool {
+		a, e1 := strconv.Atoi(out[i])
+		b, e2 := strconv.Atoi(out[j])
+		if e1 == nil && e2 == nil && a != b {
+			return a < b
+		}
+		return out[i] < out[j]
+	})
+	return out
+}
+
+// oracleWork is the property oracle for one Work execution.  It looks only at what the property
+// talks about — the calls of f (`f-enter`, `f-exit`), the calls of Add (`add-call`, `add-return`), the
+// call and the return of Do, which goroutines exist and which of them sleep on a condition variable
+// (`wait`, `signal -> t`, `broadcast`, `wake`: the scheduler's view, not the shape of the code), and how
+// the execution ended — so it gives the same verdict for any implementation of Work.
+func oracleWork(sc scenario, evs []event, end string, a *analysis) {
 	inF := map[int]string{}     // task -> item it is running f on
 	entered := map[string]int{} // item -> number of f-enter
 	exited := map[string]int{}
-	var callOrder []string
 	doReturned := false
-	mutexHeld := false
-	seenTask := map[int]bool{}
-	last := -1
 	all := closure(sc)
+	// lost wake-up bookkeeping
+	alive := map[int]bool{}       // started, not exited
+	parked := map[int]bool{}      // in a condition variable's wait set, not signalled
+	woken := map[int]bool{}       // signalled, has not resumed yet
+	inAdd := map[int]bool{}       // between add-call and add-return
+	addedRet := map[string]bool{} // some Add(item) has returned
+	pending := 0                  // items whose Add has returned and on which f has not been called yet
+	lostReported := false
+	idx := 0
 	for _, e := range evs {
-		if e.op == "B" {
-			out = append(out, "0:B:"+arg(e, 0))
-			continue
-		}
-		a.events++
-		if !seenTask[e.task] {
-			seenTask[e.task] = true
-		}
-		if last >= 0 && last != e.task {
-			a.switches++
-		}
-		last = e.task
-		t := strconv.Itoa(e.task)
-		bad := func() *analysis {
-			a.badTrace = fmt.Sprintf("untranslatable event: t%d %s %v -> %s", e.task, e.op, e.args, e.res)
-			return a
+		if e.op != "B" {
+			idx++
 		}
 		switch e.op {
-		case "start", "exit":
-			out = append(out, t+":"+e.op)
+		case "B":
+			continue
+		case "start":
+			alive[e.task] = true
+		case "go":
+			// a goroutine that has been created and has not run yet is a worker on its way
+			if w, ok := taskID(arg(e, 0)); ok {
+				alive[w] = true
+			}
+		case "exit":
+			delete(alive, e.task)
 		case "panic":
-			out = append(out, t+":panic")
+			delete(alive, e.task)
 			a.violate("panic", "a task panicked: "+strings.Join(e.args, " "))
-		case "lock", "unlock":
-			if arg(e, 0) != "m0" {
-				return bad()
-			}
-			if e.op == "lock" {
-				if mutexHeld {
-					a.violate("mutex-exclusion", "lock granted while the mutex is held")
+		case "add-call":
+			inAdd[e.task] = true
+		case "add-return":
+			delete(inAdd, e.task)
+			if x := arg(e, 0); !addedRet[x] {
+				addedRet[x] = true
+				if entered[x] == 0 {
+					pending++
 				}
-				mutexHeld = true
-			} else {
-				mutexHeld = false
 			}
-			out = append(out, t+":"+e.op)
-		case "wait", "wake":
-			if arg(e, 0) != "c0" || arg(e, 1) != "m0" {
-				return bad()
-			}
-			if e.op == "wake" {
-				if mutexHeld {
-					a.violate("mutex-exclusion", "wake-up re-acquired the mutex while it is held")
-				}
-				mutexHeld = true
-			} else {
-				mutexHeld = false
-			}
-			out = append(out, t+":"+e.op)
+		case "wait":
+			parked[e.task] = true
 		case "signal":
-			if arg(e, 0) != "c0" {
-				return bad()
-			}
-			if e.res == "none" {
-				out = append(out, t+":sig:-")
-			} else if w, ok := taskID(e.res); ok {
-				out = append(out, fmt.Sprintf("%s:sig:%d", t, w))
-			} else {
-				return bad()
+			if w, ok := taskID(e.res); ok && parked[w] {
+				delete(parked, w)
+				woken[w] = true
 			}
 		case "broadcast":
-			if arg(e, 0) != "c0" {
-				return bad()
+			for w := range parked {
+				woken[w] = true
 			}
-			out = append(out, t+":bc:"+e.res)
-		case "rand":
-			out = append(out, t+":rand:"+arg(e, 0)+":"+e.res)
+			parked = map[int]bool{}
+		case "wake":
+			delete(woken, e.task)
+			delete(parked, e.task)
 		case "f-enter":
 			x := arg(e, 0)
-			out = append(out, t+":fe:"+x)
 			entered[x]++
-			callOrder = append(callOrder, x)
+			if entered[x] == 1 && addedRet[x] {
+				pending--
+			}
 			if entered[x] > 1 {
 				a.violate("f-twice", "f called twice for item "+x)
 			}
@@ -471,7 +595,6 @@ func analyseWork(sc scenario, evs []event, end string) *analysis {
 			}
 		case "f-exit":
 			x := arg(e, 0)
-			out = append(out, t+":fx:"+x)
 			if inF[e.task] != x {
 				a.violate("f-exit-mismatch", "f-exit "+x+" without matching f-enter")
 			}
@@ -480,31 +603,36 @@ func analyseWork(sc scenario, evs []event, end string) *analysis {
 			if doReturned {
 				a.violate("f-after-return", "f("+x+") still running when Do returned")
 			}
-		case "do-call":
-			out = append(out, t+":dc:"+arg(e, 0))
 		case "do-return":
-			out = append(out, t+":dr")
 			doReturned = true
 			if len(inF) > 0 {
 				a.violate("early-return", fmt.Sprintf("Do returned while %d calls of f are in flight", len(inF)))
 			}
-			for x := range all {
+			for _, x := range sortedKeys(all) {
 				if exited[x] == 0 {
 					a.violate("early-return", "Do returned but item "+x+" (added) has not been processed")
 					break
 				}
 			}
-		case "go":
-			w, ok := taskID(arg(e, 0))
-			if !ok {
-				return bad()
+		}
+		// No lost wake-up: while no call of Add is in progress, a worker may sleep on the condition variable
+		// without a wake-up on its way only if every item that waits for its call of f is covered by a worker
+		// that has been woken and not resumed yet, or by a live worker that is neither asleep nor inside f
+		// (it is on its way to look at the queue or to call f).
+		if !lostReported && len(parked) > 0 && len(inAdd) == 0 && pending > 0 {
+			active := 0
+			for t := range alive {
+				if _, busy := inF[t]; !busy && !parked[t] && !woken[t] {
+					active++
+				}
 			}
-			out = append(out, fmt.Sprintf("%s:go:%d", t, w))
-		default:
-			return bad()
+			if pending > len(woken)+active {
+				lostReported = true
+				a.violate("lost-wakeup", fmt.Sprintf("%d item(s) added and not yet started, %d worker(s) asleep on the condition variable with no wake-up under way, only %d woken and %d other idle worker(s) to take them (after event %d: t%d %s)",
+					pending, len(parked), len(woken), active, idx, e.task, e.op))
+			}
 		}
 	}
-	a.tasks = len(seenTask)
 	switch end {
 	case "deadlock":
 		a.violate("deadlock", "the scheduler found no enabled task (deadlock / lost wake-up)")
@@ -515,20 +643,113 @@ func analyseWork(sc scenario, evs []event, end string) *analysis {
 			if !doReturned {
 				a.violate("no-return", "all tasks finished but Do did not return")
 			}
-			for x := range all {
+			for _, x := range sortedKeys(all) {
 				if entered[x] != 1 || exited[x] != 1 {
 					a.violate("not-exactly-once", fmt.Sprintf("item %s: f entered %d times, completed %d times", x, entered[x], exited[x]))
 					break
 				}
 			}
-			if len(seenTask) != sc.n {
-				a.violate("worker-count", fmt.Sprintf("%d tasks ran, n = %d", len(seenTask), sc.n))
-			}
 		}
 	}
-	in, gr := "-", "-"
+}
+
+// analyseWork runs the oracle and translates the trace into the request for the Lean driver.  An event the
+// model has no counterpart for makes the trace untranslatable (a model/implementation difference); the
+// oracle's verdict does not depend on that.
+func analyseWork(sc scenario, evs []event, end string) *analysis {
+	a := &analysis{end: end}
+	seenTask := map[int]bool{}
+	last := -1
+	for _, e := range evs {
+		if e.op == "B" {
+			continue
+		}
+		a.events++
+		seenTask[e.task] = true
+		if last >= 0 && last != e.task {
+			a.switches++
+		}
+		last = e.task
+	}
+	a.tasks = len(seenTask)
+	// ---- property oracle
+	oracleWork(sc, evs, end, a)
+	// ---- translation
+	var out []string
+	var callOrder []string
+	all := closure(sc)
+	for _, e := range evs {
+		if a.badTrace != "" {
+			break
+		}
+		if e.op == "B" {
+			out = append(out, "0:B:"+arg(e, 0))
+			continue
+		}
+		t := strconv.Itoa(e.task)
+		bad := func() {
+			a.badTrace = fmt.Sprintf("untranslatable event: t%d %s %v -> %s", e.task, e.op, e.args, e.res)
+		}
+		switch e.op {
+		case "start", "exit":
+			out = append(out, t+":"+e.op)
+		case "panic":
+			out = append(out, t+":panic")
+		case "add-call", "add-return":
+			// driver notes for the oracle; Add is modelled by its lock / signal / unlock events
+		case "lock", "unlock":
+			if arg(e, 0) != "m0" {
+				bad()
+				break
+			}
+			out = append(out, t+":"+e.op)
+		case "wait", "wake":
+			if arg(e, 0) != "c0" || arg(e, 1) != "m0" {
+				bad()
+				break
+			}
+			out = append(out, t+":"+e.op)
+		case "signal":
+			if arg(e, 0) != "c0" {
+				bad()
+				break
+			}
+			if e.res == "none" {
+				out = append(out, t+":sig:-")
+			} else if w, ok := taskID(e.res); ok {
+				out = append(out, fmt.Sprintf("%s:sig:%d", t, w))
+			} else {
+				bad()
+			}
+		case "broadcast":
+			if arg(e, 0) != "c0" {
+				bad()
+				break
+			}
+			out = append(out, t+":bc:"+e.res)
+		case "rand":
+			out = append(out, t+":rand:"+arg(e, 0)+":"+e.res)
+		case "f-enter":
+			out = append(out, t+":fe:"+arg(e, 0))
+			callOrder = append(callOrder, arg(e, 0))
+		case "f-exit":
+			out = append(out, t+":fx:"+arg(e, 0))
+		case "do-call":
+			out = append(out, t+":dc:"+arg(e, 0))
+		case "do-return":
+			out = append(out, t+":dr")
+		case "go":
+			if w, ok := taskID(arg(e, 0)); ok {
+				out = append(out, fmt.Sprintf("%s:go:%d", t, w))
+			} else {
+				bad()
+			}
+		default:
+			bad()
+		}
+	}
 	f := strings.Fields(sc.text)
-	in, gr = f[2], f[3]
+	in, gr := f[2], f[3]
 	ev := "-"
 	if len(out) > 0 {
 		ev = strings.Join(out, "|")
@@ -549,11 +770,7 @@ func analyseWork(sc scenario, evs []event, end string) *analysis {
 	}
 	a.expect = append(a.expect, [2]string{"calls", co})
 	if end == "done" && sc.n >= 1 {
-		var names []string
-		for x := range all {
-			names = append(names, x)
-		}
-		a.expect = append(a.expect, [2]string{"added-set", sortedNums(names)})
+		a.expect = append(a.expect, [2]string{"added-set", sortedNums(sortedKeys(all))})
 	}
 	return a
 }
@@ -592,26 +809,127 @@ func encVal(v string) (string, bool) {
 	return kv[0] + "." + kv[1], true
 }
 
+// oracleCache is the property oracle for one Cache execution.  It looks only at the calls and returns of
+// Do and Get, at the calls of f and the values it returned, at the scheduler's blocked sets and at how the
+// execution ended — not at which synchronisation operations the implementation performs.
+func oracleCache(sc scenario, evs []event, end string, a *analysis) {
+	curKey := map[int]string{}   // task -> key of the call in progress
+	inGet := map[int]bool{}      // task is inside Get
+	getAfterDo := map[int]bool{} // the Get in progress was called after some Do for its key had returned
+	fEntered := map[string]int{}
+	fDone := map[string]bool{}    // a call of f for the key has returned
+	fValue := map[string]string{} // what the first completed call of f returned
+	doReturned := map[string]bool{}
+	blockedReported := false
+	for _, e := range evs {
+		switch e.op {
+		case "B":
+			if arg(e, 0) != "-" && !blockedReported {
+				for _, id := range strings.Split(arg(e, 0), ".") {
+					n, _ := strconv.Atoi(id)
+					if inGet[n] {
+						blockedReported = true
+						a.violate("get-blocked", fmt.Sprintf("Get(%s) is blocked (task %d cannot take a step)", curKey[n], n))
+					}
+				}
+			}
+		case "panic":
+			a.violate("panic", "a task panicked: "+strings.Join(e.args, " "))
+		case "do-call", "get-call":
+			key := arg(e, 0)
+			curKey[e.task] = key
+			inGet[e.task] = e.op == "get-call"
+			getAfterDo[e.task] = e.op == "get-call" && doReturned[key]
+		case "f-enter":
+			key := arg(e, 0)
+			fEntered[key]++
+			if fEntered[key] > 1 {
+				a.violate("f-twice", "f invoked twice for key "+key)
+			}
+		case "f-exit":
+			key := arg(e, 0)
+			if !fDone[key] {
+				fDone[key] = true
+				fValue[key] = strings.Join(e.args[1:], " ")
+			}
+		case "do-return":
+			key := arg(e, 0)
+			raw := ""
+			if len(e.args) > 1 {
+				raw = strings.Join(e.args[1:], " ")
+			}
+			switch {
+			case !fDone[key]:
+				a.violate("do-early", "Do("+key+") returned before the call of f completed")
+			case raw != fValue[key]:
+				a.violate("do-wrong-value", "Do("+key+") returned "+raw+", f returned "+fValue[key])
+			}
+			doReturned[key] = true
+			delete(curKey, e.task)
+		case "get-return":
+			key := arg(e, 0)
+			raw := ""
+			if len(e.args) > 1 {
+				raw = strings.Join(e.args[1:], " ")
+			}
+			if raw != "<nil>" {
+				if !fDone[key] || raw != fValue[key] {
+					a.violate("get-wrong-value", "Get("+key+") returned "+raw+" which is neither nil nor the value of f ("+fValue[key]+")")
+				}
+			} else if getAfterDo[e.task] && fDone[key] && fValue[key] != "<nil>" {
+				a.violate("get-nil-after-do", "Get("+key+") was called after a Do("+key+") had returned "+fValue[key]+" and returned nil")
+			}
+			delete(curKey, e.task)
+			inGet[e.task] = false
+		}
+	}
+	switch end {
+	case "deadlock":
+		a.violate("deadlock", "the scheduler found no enabled task")
+	case "aborted":
+		a.violate("no-termination", "step limit reached")
+	case "done":
+		doKeys := map[string]bool{}
+		for _, g := range sc.prog {
+			for _, op := range g {
+				if op[0] != 'g' {
+					doKeys[op[1:]] = true
+				}
+			}
+		}
+		for _, k := range sortedKeys(doKeys) {
+			if fEntered[k] != 1 {
+				a.violate("not-exactly-once", fmt.Sprintf("key %s: f invoked %d times although Do(%s) was called", k, fEntered[k], k))
+			}
+		}
+	}
+}
+
 func analyseCache(sc scenario, evs []event, end string) *analysis {
 	a := &analysis{end: end}
+	// ---- property oracle
+	oracleCache(sc, evs, end, a)
+	// ---- translation into the request for the Lean driver
 	var out []string
-	curKey := map[int]string{} // task -> key of the call in progress
-	inGet := map[int]bool{}
+	curKey := map[int]string{}    // task -> key of the call in progress
 	objKey := map[string]string{} // a0 / m0 -> key
 	keyObj := map[string]string{} // "a:"+key -> a0
 	fEntered := map[string]int{}
 	fValue := map[string]string{} // key -> value returned by the completed f
-	stored := map[string]bool{}   // atomic.store seen
-	held := map[string]bool{}
 	seenTask := map[int]bool{}
 	last := -1
+	bad := func(why string) {
+		if a.badTrace == "" {
+			a.badTrace = why
+		}
+	}
 	bind := func(kind, obj, key string) bool {
 		if k, ok := objKey[obj]; ok && k != key {
-			a.violate("entry-shared", fmt.Sprintf("%s is used for keys %s and %s", obj, k, key))
+			bad(fmt.Sprintf("%s is used for keys %s and %s", obj, k, key))
 			return false
 		}
 		if o, ok := keyObj[kind+key]; ok && o != obj {
-			a.violate("two-entries", fmt.Sprintf("key %s uses two entries (%s and %s)", key, o, obj))
+			bad(fmt.Sprintf("key %s uses two entries (%s and %s)", key, o, obj))
 			return false
 		}
 		objKey[obj] = key
@@ -621,14 +939,6 @@ func analyseCache(sc scenario, evs []event, end string) *analysis {
 	for _, e := range evs {
 		if e.op == "B" {
 			out = append(out, "0:B:"+arg(e, 0))
-			if arg(e, 0) != "-" {
-				for _, id := range strings.Split(arg(e, 0), ".") {
-					n, _ := strconv.Atoi(id)
-					if inGet[n] {
-						a.violate("get-blocked", fmt.Sprintf("task %d is blocked inside Get", n))
-					}
-				}
-			}
 			continue
 		}
 		a.events++
@@ -637,115 +947,71 @@ func analyseCache(sc scenario, evs []event, end string) *analysis {
 			a.switches++
 		}
 		last = e.task
+		if a.badTrace != "" {
+			continue
+		}
 		t := strconv.Itoa(e.task)
-		bad := func() *analysis {
-			a.badTrace = fmt.Sprintf("untranslatable event: t%d %s %v -> %s", e.task, e.op, e.args, e.res)
-			return a
+		untranslatable := func() {
+			bad(fmt.Sprintf("untranslatable event: t%d %s %v -> %s", e.task, e.op, e.args, e.res))
 		}
 		key := curKey[e.task]
 		switch e.op {
 		case "start", "exit":
 			out = append(out, t+":"+e.op)
-		case "panic":
-			a.violate("panic", "a task panicked: "+strings.Join(e.args, " "))
-			return bad()
 		case "do-call", "get-call":
 			curKey[e.task] = arg(e, 0)
-			inGet[e.task] = e.op == "get-call"
 			out = append(out, t+":"+map[string]string{"do-call": "dc", "get-call": "gc"}[e.op]+":"+arg(e, 0))
 		case "do-return", "get-return":
+			if len(e.args) < 2 {
+				untranslatable()
+				break
+			}
 			v, ok := encVal(strings.Join(e.args[1:], " "))
 			if !ok || arg(e, 0) != key {
-				return bad()
+				untranslatable()
+				break
 			}
-			raw := strings.Join(e.args[1:], " ")
-			if e.op == "do-return" {
-				fv, done := fValue[key]
-				switch {
-				case !done:
-					a.violate("do-early", "Do("+key+") returned before the call of f completed")
-				case raw != fv:
-					a.violate("do-wrong-value", "Do("+key+") returned "+raw+", f returned "+fv)
-				case !stored[key]:
-					a.violate("do-unpublished", "Do("+key+") returned before done was set")
-				}
-				out = append(out, t+":dr:"+key+":"+v)
-			} else {
-				if raw != "<nil>" {
-					fv, done := fValue[key]
-					if !done || raw != fv {
-						a.violate("get-wrong-value", "Get("+key+") returned "+raw+" which is neither nil nor the value of f ("+fv+")")
-					} else if !stored[key] {
-						a.violate("get-unpublished", "Get("+key+") returned a value before done was set")
-					}
-				}
-				out = append(out, t+":gr:"+key+":"+v)
-			}
+			out = append(out, t+":"+map[string]string{"do-return": "dr", "get-return": "gr"}[e.op]+":"+key+":"+v)
 			delete(curKey, e.task)
-			inGet[e.task] = false
 		case "map.load", "map.loadOrStore":
 			if arg(e, 0) != "M0" || arg(e, 1) != key {
-				return bad()
+				untranslatable()
+				break
 			}
 			op := map[string]string{"map.load": "ml", "map.loadOrStore": "mls"}[e.op]
 			out = append(out, t+":"+op+":"+key+":"+e.res)
 		case "atomic.load":
-			if !bind("a:", arg(e, 0), key) {
-				return bad()
+			if bind("a:", arg(e, 0), key) {
+				out = append(out, t+":al:"+key+":"+e.res)
 			}
-			out = append(out, t+":al:"+key+":"+e.res)
 		case "atomic.store":
-			if !bind("a:", arg(e, 0), key) {
-				return bad()
+			if bind("a:", arg(e, 0), key) {
+				out = append(out, t+":as:"+key+":"+arg(e, 1))
 			}
-			if _, ok := fValue[key]; !ok {
-				a.violate("store-before-result", "done set for key "+key+" before f returned")
-			}
-			stored[key] = true
-			out = append(out, t+":as:"+key+":"+arg(e, 1))
 		case "lock", "unlock":
-			if !bind("m:", arg(e, 0), key) {
-				return bad()
+			if bind("m:", arg(e, 0), key) {
+				out = append(out, t+":"+e.op+":"+key)
 			}
-			if inGet[e.task] {
-				a.violate("get-locks", "Get("+key+") takes the entry mutex")
-			}
-			if e.op == "lock" {
-				if held[key] {
-					a.violate("mutex-exclusion", "lock granted while the mutex is held")
-				}
-				held[key] = true
-			} else {
-				held[key] = false
-			}
-			out = append(out, t+":"+e.op+":"+key)
 		case "f-enter":
 			if arg(e, 0) != key {
-				return bad()
+				untranslatable()
+				break
 			}
 			fEntered[key]++
-			if fEntered[key] > 1 {
-				a.violate("f-twice", "f invoked twice for key "+key)
-			}
 			out = append(out, t+":fe:"+key)
 		case "f-exit":
-			v, ok := encVal(arg(e, 1))
-			if !ok || v == "nil" || arg(e, 0) != key {
-				return bad()
+			v, ok := encVal(strings.Join(e.args[1:], " "))
+			if !ok || arg(e, 0) != key {
+				untranslatable()
+				break
 			}
-			fValue[key] = arg(e, 1)
+			fValue[key] = strings.Join(e.args[1:], " ")
 			out = append(out, t+":fx:"+key+":"+v)
 		default:
-			return bad()
+			untranslatable()
 		}
 	}
 	a.tasks = len(seenTask)
-	switch end {
-	case "deadlock":
-		a.violate("deadlock", "the scheduler found no enabled task")
-	case "aborted":
-		a.violate("no-termination", "step limit reached")
-	}
 	ev := "-"
 	if len(out) > 0 {
 		ev = strings.Join(out, "|")
@@ -759,31 +1025,21 @@ func analyseCache(sc scenario, evs []event, end string) *analysis {
 		for _, g := range sc.prog {
 			for _, op := range g {
 				keys[op[1:]] = true
-				if op[0] == 'd' {
+				if op[0] != 'g' {
 					doKeys[op[1:]] = true
 				}
 			}
 		}
-		var ks []string
-		for k := range keys {
-			ks = append(ks, k)
-		}
-		sort.Slice(ks, func(i, j int) bool { a, _ := strconv.Atoi(ks[i]); b, _ := strconv.Atoi(ks[j]); return a < b })
 		var parts []string
-		for _, k := range ks {
+		for _, k := range sortedKeys(keys) {
 			if doKeys[k] {
 				v, _ := encVal(fValue[k])
 				parts = append(parts, fmt.Sprintf("%s:alloc=true,done=1,owner=-,result=%s,fcalls=%d,fret=%s", k, v, fEntered[k], v))
 			} else {
-				parts = append(parts, fmt.Sprintf("%s:alloc=false,done=0,owner=-,result=nil,fcalls=0,fret=nil", k))
+				parts = append(parts, fmt.Sprintf("%s:alloc=false,done=0,owner=-,result=nil,fcalls=0,fret=-", k))
 			}
 		}
 		a.expect = append(a.expect, [2]string{"keys", strings.Join(parts, ";")})
-		for k := range doKeys {
-			if fEntered[k] != 1 {
-				a.violate("not-exactly-once", fmt.Sprintf("key %s: f invoked %d times although Do(%s) was called", k, fEntered[k], k))
-			}
-		}
 	}
 	return a
 }
@@ -856,6 +1112,7 @@ func hash64(s string) uint64 {
 
 func runPar(tier string, seed int64, model string, replay string) *corr.Result {
 	res := corr.NewResult("par", tier, seed)
+	tStart := time.Now()
 	r := rand.New(rand.NewSource(seed))
 	search := os.Getenv("VERIF_SEARCH") != ""
 
@@ -940,7 +1197,20 @@ func runPar(tier string, seed int64, model string, replay string) *corr.Result {
 				}
 			}
 		}
-		// ---- random scenarios: n ≤ 8, ≤ 30 items; 2–4 goroutines, 1–2 keys
+		// ---- bursts: more than a thousand items pending at once (growth steps of the queue's backing array), the queue
+		// then drains to exactly empty, and whoever is processed last re-adds an item that has been processed already
+		nBurst := 1
+		if thorough {
+			nBurst = 4
+		}
+		for _, bs := range [][2]int{{1, 1100}, {2, 1100}, {4, 1300}, {1, 2100}} {
+			sc := workScenario("burst", bs[0], fmt.Sprintf("0..%d", bs[1]-1), fmt.Sprintf("0..%d>0", bs[1]-1))
+			for i := 0; i < nBurst; i++ {
+				jobs = append(jobs, job{sc: sc, request: fmt.Sprintf("%s %s", sc.text, randSched(r))})
+			}
+		}
+		// ---- random scenarios: n ≤ 8, ≤ 30 items (one of them nil in a quarter of the scenarios); 2–4 goroutines, 1–2 keys
+		// (each key's f returns nil with probability 1/3)
 		for i := 0; i < nRandW; i++ {
 			sc := randWork(r, 8, 30)
 			jobs = append(jobs, job{sc: sc, request: fmt.Sprintf("%s %s", sc.text, randSched(r))})
@@ -992,13 +1262,16 @@ func runPar(tier string, seed int64, model string, replay string) *corr.Result {
 		}()
 	}
 	wg.Wait()
+	if os.Getenv("VERIF_PAR_TIMING") != "" {
+		fmt.Fprintf(os.Stderr, "par: %d jobs, instrumented runs done after %v\n", len(jobs), time.Since(tStart))
+	}
 
 	// ---- analyse, replay in the model, compare
 	seen := map[uint64]bool{}
 	nontrivial := 0
 	dfsStats := map[string][2]int{} // label -> (scenarios, schedules)
 	truncated, sampled := 0, 0
-	const chunk = 20000
+	const chunk = 40000
 	var pend []*analysis
 	var pendCase []string
 	var pendProp []string
@@ -1010,7 +1283,30 @@ func runPar(tier string, seed int64, model string, replay string) *corr.Result {
 		for i, a := range pend {
 			lines[i] = a.modelLine
 		}
-		outs, err := mdl.Run(model, nil, lines, 0)
+		tM := time.Now()
+		// mdl.Run gives each driver process a contiguous block; deal the lines round-robin so that the heavy
+		// traces (large n, bursts), which are generated next to each other, are spread over the processes
+		W := runtime.NumCPU()
+		order := make([]int, 0, len(lines))
+		for w := 0; w < W; w++ {
+			for i := w; i < len(lines); i += W {
+				order = append(order, i)
+			}
+		}
+		dealt := make([]string, len(lines))
+		for j, i := range order {
+			dealt[j] = lines[i]
+		}
+		outs2, err := mdl.Run(model, nil, dealt, W)
+		outs := make([]string, len(lines))
+		if err == nil {
+			for j, i := range order {
+				outs[i] = outs2[j]
+			}
+		}
+		if os.Getenv("VERIF_PAR_TIMING") != "" {
+			fmt.Fprintf(os.Stderr, "par: model replay of %d traces took %v\n", len(lines), time.Since(tM))
+		}
 		if err != nil {
 			res.Observations = append(res.Observations, "model driver error: "+err.Error())
 			res.Disagree("<driver>", "", err.Error())
@@ -1026,8 +1322,51 @@ func runPar(tier string, seed int64, model string, replay string) *corr.Result {
 		}
 		pend, pendCase, pendProp = nil, nil, nil
 	}
+	// the traces of a job are analysed by a pool of goroutines; the results are consumed in job order
+	type analysed struct {
+		caseText string
+		a        *analysis
+	}
+	perJob := make([][]analysed, len(jobs))
+	ready := make([]chan struct{}, len(jobs))
+	for i := range ready {
+		ready[i] = make(chan struct{})
+	}
+	{
+		var nextA int64 = -1
+		for w := 0; w < runtime.NumCPU(); w++ {
+			go func() {
+				for {
+					i := int(atomic.AddInt64(&nextA, 1))
+					if i >= len(jobs) {
+						return
+					}
+					if results[i].err == nil {
+						out := make([]analysed, len(results[i].traces))
+						for k, line := range results[i].traces {
+							_, _, choices, _ := parseTrace(line)
+							caseText := jobs[i].sc.text + " " + choices
+							if !jobs[i].dfs && len(choices) > 1500 {
+								// a long recorded choice list (bursts, large n): the seeded schedule it was
+								// produced from replays the same execution and keeps the replay file small
+								caseText = jobs[i].request
+							}
+							out[k] = analysed{caseText, analyse(jobs[i].sc, line)}
+						}
+						perJob[i] = out
+					}
+					close(ready[i])
+				}
+			}()
+		}
+	}
 	for i, jb := range jobs {
 		jr := results[i]
+		<-ready[i]
+		if i > 0 {
+			perJob[i-1] = nil
+			results[i-1].traces = nil
+		}
 		if jr.err != nil {
 			res.DisagreeFor([]string{propOf(jb.sc)}, jb.request, jr.err.Error(), "")
 			continue
@@ -1047,18 +1386,17 @@ func runPar(tier string, seed int64, model string, replay string) *corr.Result {
 			}
 		}
 		prop := propOf(jb.sc)
-		for _, line := range jr.traces {
-			_, _, choices, _ := parseTrace(line)
-			caseText := jb.sc.text + " " + choices
-			a := analyse(jb.sc, line)
+		for _, an := range perJob[i] {
+			caseText, a := an.caseText, an.a
 			res.Evaluations++
 			res.OracleChecked[prop]++
+			// the oracle's verdict stands whether or not the model has a counterpart for every event
+			for _, v := range a.violations {
+				res.Violate(prop, caseText, v[1], v[0])
+			}
 			if a.badTrace != "" {
 				res.DisagreeFor([]string{prop}, caseText, a.badTrace, "")
 				continue
-			}
-			for _, v := range a.violations {
-				res.Violate(prop, caseText, v[1], v[0])
 			}
 			h := hash64(a.modelLine)
 			if !seen[h] {
@@ -1067,6 +1405,15 @@ func runPar(tier string, seed int64, model string, replay string) *corr.Result {
 					nontrivial++
 				}
 				res.Distribution[jb.sc.kind+":"+strings.TrimSuffix(jb.sc.label, "-rnd")]++
+				if jb.sc.kind == "work" && jb.sc.hasNilItem() {
+					res.Distribution["work:class=nil-item"]++
+				}
+				if jb.sc.kind == "cache" && len(jb.sc.nilKeys) > 0 {
+					res.Distribution["cache:class=nil-key(f returns nil)"]++
+				}
+				if jb.sc.kind == "work" && len(jb.sc.init) > 1024 {
+					res.Distribution["work:class=burst(>1024 items pending)"]++
+				}
 				res.Distribution[fmt.Sprintf("%s:tasks=%s", jb.sc.kind, taskBucket(a.tasks))]++
 				res.Distribution[fmt.Sprintf("%s:events<%d", jb.sc.kind, (a.events/50+1)*50)]++
 				res.Distribution[jb.sc.kind+":end="+a.end]++
@@ -1081,7 +1428,7 @@ func runPar(tier string, seed int64, model string, replay string) *corr.Result {
 	}
 	flush()
 	res.DistinctNontrivial = nontrivial
-	res.Rule = "distinct (scenario, event sequence) pairs of the instrumented par package in which at least two tasks take steps and the running task changes at least twice; every trace is replayed in the Lean transition system (each event must be the next operation of that task's program, enabled, with the logged result; the blocked set at every scheduling point and the final state must agree) and checked by the independent trace oracle"
+	res.Rule = "distinct (scenario, event sequence) pairs of the instrumented par package in which at least two tasks take steps and the running task changes at least twice; every trace is replayed in the Lean transition system (each event must be the next operation of that task's program, enabled, with the logged result; the blocked set at every scheduling point and the final state must agree) and checked by the independent property oracle, which reads only the calls of f / Add / Do / Get, their values, the scheduler's blocked and sleeping sets and the way the execution ended (Work: every added item exactly once, at most n at a time, Do returns last, no deadlock, no lost wake-up; Cache: f once per key — nil results included —, Do returns f's value and not before it, Get neither blocks nor invents a value)"
 	for k, st := range dfsStats {
 		res.Extra["dfs_"+k] = map[string]int{"scenarios": st[0], "schedules": st[1]}
 	}
@@ -1090,17 +1437,23 @@ func runPar(tier string, seed int64, model string, replay string) *corr.Result {
 	res.Exhaustive = replay == "" && truncated == 0
 	if tier == "thorough" {
 		res.Extra["exhaustive_spaces"] = []string{
-			"Work: all schedules (scheduler and rand.Intn choices) with at most 3 preemptions for n ≤ 2, 2 for n = 3, 1 for n = 4, over 12 item graphs of ≤ 4 items (empty, single, two, chain, fan-out, diamond, self loop, cycle, duplicate adds, join); plus a capped DFS prefix with 2 preemptions for n = 4",
-			"Cache: all schedules with at most 3 preemptions (2 for 4 goroutines) of 12 programs of 2–4 goroutines over 1–2 keys",
+			fmt.Sprintf("Work: all schedules (scheduler and rand.Intn choices) with at most 3 preemptions for n ≤ 2, 2 for n = 3, 1 for n = 4, over %d item graphs of ≤ 4 items (empty, single, two, chain, fan-out, diamond, self loop, cycle, duplicate adds, join, and four with the item nil); plus a capped DFS prefix with 2 preemptions for n = 4", len(smallGraphs)),
+			fmt.Sprintf("Cache: all schedules with at most 3 preemptions (2 for 4 goroutines) of %d programs of 2–4 goroutines over 1–2 keys (five of them with keys whose f returns nil)", len(smallCaches)),
 		}
 	} else {
 		res.Extra["exhaustive_spaces"] = []string{
-			"Work: all schedules (scheduler and rand.Intn choices) with at most 2 preemptions for n ≤ 2 and 1 for n = 3, over 12 item graphs of ≤ 4 items (empty, single, two, chain, fan-out, diamond, self loop, cycle, duplicate adds, join); plus capped DFS prefixes with 2 preemptions for n = 3 and 1 for n = 4",
-			"Cache: all schedules with at most 2 preemptions (1 for 4 goroutines) of 12 programs of 2–4 goroutines over 1–2 keys",
+			fmt.Sprintf("Work: all schedules (scheduler and rand.Intn choices) with at most 2 preemptions for n ≤ 2 and 1 for n = 3, over %d item graphs of ≤ 4 items (empty, single, two, chain, fan-out, diamond, self loop, cycle, duplicate adds, join, and four with the item nil); plus capped DFS prefixes with 2 preemptions for n = 3 and 1 for n = 4", len(smallGraphs)),
+			fmt.Sprintf("Cache: all schedules with at most 2 preemptions (1 for 4 goroutines) of %d programs of 2–4 goroutines over 1–2 keys (five of them with keys whose f returns nil)", len(smallCaches)),
 		}
+	}
+	if os.Getenv("VERIF_PAR_TIMING") != "" {
+		fmt.Fprintf(os.Stderr, "par: analysis and model replay done after %v\n", time.Since(tStart))
 	}
 	if replay == "" {
 		smoke(res, r, tier)
+	}
+	if os.Getenv("VERIF_PAR_TIMING") != "" {
+		fmt.Fprintf(os.Stderr, "par: smoke done after %v\n", time.Since(tStart))
 	}
 	return res
 }
@@ -1129,65 +1482,82 @@ func smoke(res *corr.Result, r *rand.Rand, tier string) {
 	}
 	old := runtime.GOMAXPROCS(0)
 	defer runtime.GOMAXPROCS(old)
-	type verdict struct{ prop, class, what, input string }
-	done := make(chan []verdict, 1)
 	seeds := make([]int64, rounds)
 	for i := range seeds {
 		seeds[i] = r.Int63()
 	}
-	go func() {
-		var vs []verdict
+	// Every round runs under its own watchdog (a round takes milliseconds; the bound is a minute and a half), so that a
+	// hang is reported with the input of the round that hung and for the property whose lane it is: the Work
+	// rounds and the Cache rounds are separate lanes, a deadlock of Work says nothing about Cache.
+	const roundLimit = 90
+	lane := func(prop string, prepare func(i int) (string, func() string)) {
 		for i := 0; i < rounds; i++ {
-			rr := rand.New(rand.NewSource(seeds[i]))
 			runtime.GOMAXPROCS([]int{1, 2, 4, 8}[i%4])
-			// Work
-			items := 1 + rr.Intn(200)
-			n := 1 + rr.Intn(16)
-			children := make([][]int, items)
-			for x := range children {
-				for j, k := 0, rr.Intn(4); j < k; j++ {
-					children[x] = append(children[x], rr.Intn(items))
+			in, run := prepare(i)
+			ch := make(chan string, 1)
+			go func() { ch <- run() }()
+			select {
+			case v := <-ch:
+				if v != "" {
+					res.Violate(prop, in, v, "smoke-unmodified")
 				}
-			}
-			in := fmt.Sprintf("smoke-work seed=%d items=%d n=%d", seeds[i], items, n)
-			if v := smokeWork(n, items, children, 1+rr.Intn(3)); v != "" {
-				vs = append(vs, verdict{"C09", "smoke-unmodified", v, in})
-			}
-			// Cache
-			g := 2 + rr.Intn(30)
-			keys := 1 + rr.Intn(4)
-			in = fmt.Sprintf("smoke-cache seed=%d goroutines=%d keys=%d", seeds[i], g, keys)
-			if v := smokeCache(g, keys); v != "" {
-				vs = append(vs, verdict{"C10", "smoke-unmodified", v, in})
+				res.OracleChecked[prop]++
+			case <-timeAfter(roundLimit):
+				res.Violate(prop, in, fmt.Sprintf("the unmodified par package did not finish this round within %d s (hang)", roundLimit), "smoke-hang")
+				return
 			}
 		}
-		done <- vs
-	}()
-	select {
-	case vs := <-done:
-		for _, v := range vs {
-			res.Violate(v.prop, v.input, v.what, v.class)
-		}
-		res.Distribution["smoke:rounds"] = rounds
-		res.OracleChecked["C09"] += rounds
-		res.OracleChecked["C10"] += rounds
-	case <-timeAfter(600):
-		res.Violate("C09", "smoke", "the unmodified par package did not finish the smoke rounds within 10 minutes (hang)", "smoke-hang")
-		res.Violate("C10", "smoke", "the unmodified par package did not finish the smoke rounds within 10 minutes (hang)", "smoke-hang")
 	}
+	lane("C09", func(i int) (string, func() string) {
+		rr := rand.New(rand.NewSource(seeds[i]))
+		items := 1 + rr.Intn(200)
+		n := 1 + rr.Intn(16)
+		children := make([][]int, items)
+		for x := range children {
+			for j, k := 0, rr.Intn(4); j < k; j++ {
+				children[x] = append(children[x], rr.Intn(items))
+			}
+		}
+		nilIdx := -1
+		if rr.Intn(2) == 0 {
+			nilIdx = rr.Intn(items)
+		}
+		ninit := 1 + rr.Intn(3)
+		in := fmt.Sprintf("smoke-work seed=%d items=%d n=%d initial=%d nil-item=%d", seeds[i], items, n, ninit, nilIdx)
+		return in, func() string { return smokeWork(n, items, children, ninit, nilIdx) }
+	})
+	lane("C10", func(i int) (string, func() string) {
+		rr := rand.New(rand.NewSource(seeds[i] ^ 0x5bd1e995))
+		g := 2 + rr.Intn(30)
+		keys := 1 + rr.Intn(5)
+		in := fmt.Sprintf("smoke-cache seed=%d goroutines=%d keys=%d (f of keys 2 mod 3 returns nil)", seeds[i], g, keys)
+		return in, func() string { return smokeCache(g, keys) }
+	})
+	res.Distribution["smoke:rounds"] = rounds
+	res.Distribution["smoke:class=nil-item / nil-returning keys included"] = rounds
 }
 
 func timeAfter(sec int) <-chan time.Time { return time.After(time.Duration(sec) * time.Second) }
 
-func smokeWork(n, items int, children [][]int, ninit int) string {
+// smokeWork: items are the ints 0 … items-1, except that item nilIdx (if ≥ 0) is the Go value nil.
+func smokeWork(n, items int, children [][]int, ninit int, nilIdx int) string {
 	var w par.Work
+	toItem := func(i int) any {
+		if i == nilIdx {
+			return nil
+		}
+		return i
+	}
 	for i := 0; i < ninit; i++ {
-		w.Add(i % items)
+		w.Add(toItem(i % items))
 	}
 	calls := make([]int32, items)
 	var inFlight, maxInFlight, finished int32
 	w.Do(n, func(item any) {
-		x := item.(int)
+		x := nilIdx
+		if item != nil {
+			x = item.(int)
+		}
 		c := atomic.AddInt32(&inFlight, 1)
 		for {
 			m := atomic.LoadInt32(&maxInFlight)
@@ -1197,7 +1567,7 @@ func smokeWork(n, items int, children [][]int, ninit int) string {
 		}
 		atomic.AddInt32(&calls[x], 1)
 		for _, ch := range children[x] {
-			w.Add(ch)
+			w.Add(toItem(ch))
 		}
 		runtime.Gosched()
 		atomic.AddInt32(&inFlight, -1)
@@ -1230,36 +1600,50 @@ func smokeWork(n, items int, children [][]int, ninit int) string {
 			want = 1
 		}
 		if atomic.LoadInt32(&calls[x]) != want {
-			return fmt.Sprintf("item %d processed %d times, expected %d", x, calls[x], want)
+			name := strconv.Itoa(x)
+			if x == nilIdx {
+				name = "nil"
+			}
+			return fmt.Sprintf("item %s processed %d times, expected %d", name, calls[x], want)
 		}
 	}
 	return ""
 }
 
+// smokeCache: the f of every third key (key % 3 == 2) returns nil.
 func smokeCache(g, keys int) string {
 	var c par.Cache
 	calls := make([]int32, keys)
 	var wg sync.WaitGroup
-	errs := make(chan string, g*keys*2)
+	errs := make(chan string, g*keys*3)
+	want := func(key int) any {
+		if key%3 == 2 {
+			return nil
+		}
+		return fmt.Sprintf("%d#1", key)
+	}
 	for i := 0; i < g; i++ {
 		wg.Add(1)
 		go func(i int) {
 			defer wg.Done()
 			for k := 0; k < keys; k++ {
 				key := (k + i) % keys
-				if v := c.Get(key); v != nil && v != fmt.Sprintf("%d#1", key) {
+				if v := c.Get(key); v != nil && v != want(key) {
 					errs <- fmt.Sprintf("Get(%d) = %v", key, v)
 				}
 				v := c.Do(key, func() any {
 					n := atomic.AddInt32(&calls[key], 1)
 					runtime.Gosched()
+					if key%3 == 2 {
+						return nil
+					}
 					return fmt.Sprintf("%d#%d", key, n)
 				})
-				if v != fmt.Sprintf("%d#1", key) {
-					errs <- fmt.Sprintf("Do(%d) = %v", key, v)
+				if v != want(key) {
+					errs <- fmt.Sprintf("Do(%d) = %v, want %v", key, v, want(key))
 				}
-				if v := c.Get(key); v != fmt.Sprintf("%d#1", key) {
-					errs <- fmt.Sprintf("Get(%d) after Do = %v", key, v)
+				if v := c.Get(key); v != want(key) {
+					errs <- fmt.Sprintf("Get(%d) after Do = %v, want %v", key, v, want(key))
 				}
 			}
 		}(i)
